@@ -13,3 +13,11 @@ Proof. unfold in32b, in32. rewrite andb_true_iff, !Z.leb_le. tauto. Qed.
 Lemma in32b_false z : in32b z = false <-> ~ in32 z.
 Proof. rewrite <- in32b_spec. destruct (in32b z); split; intro H; try reflexivity; try discriminate.
   exfalso; apply H; reflexivity. Qed.
+
+Lemma quot_abs_le r j : j <> 0 -> Z.abs (Z.quot r j) <= Z.abs r.
+Proof.
+  intro Hj. rewrite <- Z.quot_abs by lia.
+  pose proof (Z.mul_quot_le (Z.abs r) (Z.abs j) ltac:(lia) ltac:(lia)).
+  assert (0 <= Z.abs r ÷ Z.abs j) by (apply Z.quot_pos; lia).
+  nia.
+Qed.
